@@ -34,6 +34,7 @@ type lifeModel struct {
 	closed     bool
 	cbSeen     int
 	prevState  ConnectionState
+	lastTick   string // agent state right after the most recent tick (what the tick closure remembers)
 	t0         time.Time
 }
 
@@ -302,6 +303,7 @@ func (m *lifeModel) oracleTick() {
 	}
 	age := time.Since(m.chkStart)
 	m.tick()
+	m.lastTick = a.connectionState.String()
 	m.checkTick(before, hadSel, sil, age)
 }
 
@@ -454,6 +456,14 @@ func (m *lifeModel) Key() (string, []int) {
 		k = "closed"
 	}
 	// outstanding requests matter only through "is there one to answer"
+	// the per-tick closure of the agent keeps private state (the state it saw last, the start of the checking phase)
+	// that no accessor shows: the harness's own record of what determines it is part of the key, otherwise states
+	// that only differ there would be merged and a defect in that bookkeeping would be invisible
+	stale := time.Duration(-1)
+	if !m.chkStart.IsZero() {
+		stale = time.Since(m.chkStart)
+	}
+	k += fmt.Sprintf(" lasttick=%s stale=%s", m.lastTick, lifeRegion(stale, m.checkDL))
 	k += fmt.Sprintf(" sil=%s age=%s out=%v ticked=%v last=%v", lifeRegion(m.silence(), m.dT, total), lifeRegion(age, m.checkDL), len(m.pendingOut()) > 0, m.chkTicked == m.chkPhase, m.prevState)
 
 	return k, []int{m.depth}
